@@ -948,6 +948,9 @@ class CircuitTemplate(AbstractBaseTemplate):
 
             # return target nodes of circuit based on single identifier
             if node_identifier[0] in net:
+                # a sub-circuit is not a node: a pattern that ends at a circuit matches no node
+                if isinstance(net[node_identifier[0]], CircuitTemplate):
+                    return list()
                 return self._get_nodes_with_var(var_identifier, nodes=node_identifier)
             if node_identifier[0] == 'all':
                 if self.circuits:
